@@ -331,6 +331,13 @@ def extInst (m : Module) (ty : Nat) (n : Nat) (args : List Val) : M Val := do
   let a1 (f : W → M W) := do lift1 m ty f (← opt args[0]? "ext arg")
   let a2 (f : W → W → M W) := do lift2 m ty f (← opt args[0]? "ext arg") (← opt args[1]? "ext arg")
   match n with
+  | 1 => a1 (fun a =>                                               -- Round: "the fraction 0.5 will round in a direction chosen by the implementation"
+      if fIsTieF (f32OfBits a) then throw (.stuck "GLSL.std.450 Round on a tie: the direction is chosen by the implementation (RoundEven is the defined one)")
+      else pure (fun1 fRoundEvenF a))
+  | 2 => a1 (fun a => pure (fun1 fRoundEvenF a))                    -- RoundEven
+  | 3 => a1 (fun a => pure (fun1 fTruncF a))                        -- Trunc
+  | 8 => a1 (fun a => pure (fun1 Float32.floor a))                  -- Floor
+  | 9 => a1 (fun a => pure (fun1 Float32.ceil a))                   -- Ceil
   | 4 => a1 (fun a => pure (a &&& 0x7FFFFFFF#32))                 -- FAbs
   | 5 => a1 (fun a => pure (absS a))                                -- SAbs
   | 37 => a2 (fun a b => pure (if fcmp (· < ·) b a then b else a))  -- FMin
